@@ -7,6 +7,14 @@ use std::collections::HashSet;
 // the crate is only built for 64-bit targets in the suite; usize == u64 (listed assumption)
 global size_of usize == 8;
 
+/// Rust language guarantee: no object is larger than isize::MAX bytes (listed assumption)
+#[verifier::external_body]
+pub proof fn axiom_slice_len_u8(s: &[u8])
+    ensures
+        s@.len() <= 0x7fff_ffff_ffff_ffff,
+{
+}
+
 // R6: integer intrinsics Verus has no specification for --------------------------------------
 pub trait U32Be: Sized {
     fn to_be_bytes_u32(self) -> [u8; 4];
